@@ -64,6 +64,125 @@ def gen_muts(rng):
     return muts
 
 
+EDIT_FIELDS = ["title", "revision", "displaytitle", "custom", "content_type", "wikiident", "summary", "sort_as", "caption"]
+ITEM_CLASSES = ["article", "article", "chapter", "custom"]
+
+
+def shape_of_json(j):
+    """Shadow of the items tree ([class, children]) of a request text, so that edits can address objects that exist."""
+    kids = []
+    for x in (j.get("items") or []) if isinstance(j, dict) else []:
+        if isinstance(x, dict) and isinstance(x.get("type"), str):
+            kids.append(shape_of_json(x))
+    return [str(j.get("type", "")).lower(), kids]
+
+
+def shape_nodes(shape, path=()):
+    yield path, shape
+    for i, k in enumerate(shape[1]):
+        yield from shape_nodes(k, path + (i,))
+
+
+def gen_edit(rng, shape):
+    """In-place edits of the live metabook: list of [path, action].  path = indices followed through .items (any depth,
+    [] = the Collection object itself, whose containers are then changed WITHOUT assigning an attribute of the Collection).
+    `shape` shadows the items tree so that most edits hit an existing object; 15% of the paths are arbitrary."""
+    if rng.random() < 0.15:
+        path = [rng.randrange(6) for _ in range(rng.choice([1, 2, 3]))]
+        node = None
+    else:
+        nodes = list(shape_nodes(shape))
+        deep = [n for n in nodes if len(n[0]) >= 1]
+        path, node = rng.choice(deep if deep and rng.random() < 0.75 else nodes)
+        path = [i + rng.choice([0, 0, len(_parent(shape, path[:d])[1])]) for d, i in enumerate(path)]    # modulo spellings
+    has_items = node is None or node[0] in ("collection", "chapter")
+    r = rng.random()
+    pre = []
+    if not has_items and r >= 0.34 and r < 0.8:
+        r = rng.random() * 0.34
+    if r < 0.34:
+        act = ["set", rng.choice(EDIT_FIELDS), fz(rng, rng.choice(TITLES + ["11", 7, None]))]
+    elif r < 0.5:
+        cls = rng.choice(ITEM_CLASSES)
+        act = ["append", cls, {"title": fz(rng, rng.choice(TITLES))}]
+        if node:
+            node[1].append([cls, []])
+    elif r < 0.6:
+        cls = rng.choice(ITEM_CLASSES)
+        i = rng.randrange(6)
+        act = ["insert", i, cls, {"title": fz(rng, rng.choice(TITLES)), **({"revision": rng.choice(["3", 0])} if rng.random() < 0.3 else {})}]
+        if node:
+            node[1].insert(i % (len(node[1]) + 1), [cls, []])
+    elif r < 0.7:
+        i = rng.randrange(6)
+        act = ["pop", i]
+        if node and node[1]:
+            node[1].pop(i % len(node[1]))
+    elif r < 0.8:
+        act = ["reverse"]
+        if node:
+            node[1].reverse()
+    elif r < 0.9:
+        top = node is not None and node[0] == "collection"
+        f = rng.choice(["wikis", "licenses"] if top and rng.random() < 0.8 else ["custom_key", "Title"])
+        v = (["O", "WikiConf", {"image": None, "baseurl": "http://w/", "ident": rng.choice(["en", "de", None])}] if f == "wikis" else
+             ["D", {"name": "GFDL", "mw_rights_text": rng.choice(TITLES)}] if f == "licenses" else fz(rng, rng.choice(TITLES)))
+        if f in ("custom_key", "Title") and rng.random() < 0.7:
+            pre.append([path, ["set", f, ["L", [rng.choice(TITLES)] * rng.randrange(2)]]])
+        act = ["listappend", f, v]
+    else:
+        f = rng.choice(["licenses", "wikis", "custom_key", "custom"])
+        if f == "licenses" and rng.random() < 0.7:
+            pre.append([path, ["listappend", f, ["D", {"name": "GFDL", "mw_rights_text": rng.choice(TITLES)}]]])
+        elif f == "wikis" and rng.random() < 0.7:
+            pre.append([path, ["listappend", f, ["O", "WikiConf", {"image": None, "baseurl": "http://w/", "ident": None}]]])
+        elif rng.random() < 0.7:
+            pre.append([path, ["set", f, rng.choice([["D", {"a": "1"}], ["L", [["D", {}], ["D", {"url": "u"}]]]])]])
+        act = ["inner", f, rng.randrange(4), rng.choice(["name", "mw_rights_text", "ident", "baseurl", "a", "url"]), fz(rng, rng.choice(TITLES))]
+    return pre + [[path, act]]
+
+
+def _parent(shape, path):
+    for i in path:
+        shape = shape[1][i]
+    return shape
+
+
+def shape_append_article(shape):
+    """Collection.append_article on the shadow tree."""
+    if shape[1] and shape[1][-1][0] == "chapter":
+        shape[1][-1][1].append(["article", []])
+    else:
+        shape[1].append(["article", []])
+
+
+def gen_session(rng, base, shape):
+    """The life of one metabook object between requests: its checksum / collection id is asked for (`probe`), the object is
+    changed in place at some depth or through the API, and the identifiers are asked for again -- several times."""
+    ops = [["probe", base]]
+    last = None
+    for _ in range(rng.choice([1, 1, 2, 3, 4])):
+        for _ in range(rng.choice([1, 1, 1, 2])):
+            r = rng.random()
+            if last is not None and last[2][0] in ("set", "inner") and r < 0.1:
+                ops.append(last)             # the same assignment again: nothing changes, nothing may change
+            elif r < 0.78:
+                es = [["edit"] + e for e in gen_edit(rng, shape)]
+                if len(es) > 1 and rng.random() < 0.5:
+                    es.insert(len(es) - 1, ["probe", base])
+                ops += es
+                last = es[-1]
+            elif r < 0.86:
+                ops.append(["set", rng.choice(OPT_FIELDS), rng.choice(TITLES)])
+            elif r < 0.95:
+                ops.append(["append", rng.choice(TITLES), None, {}])
+                shape_append_article(shape)
+            else:
+                ops.append(["reload"])
+        ops.append(["probe", base])
+    return ops
+
+
 def rand_value(rng, depth=0):
     r = rng.random()
     if r < 0.45:
@@ -91,6 +210,7 @@ def gen_case(rng, cid, null_defaults):
     if rng.random() < 0.2:
         kw[rng.choice(EXTRA_FIELDS)] = rand_value(rng)
     ops.append(["new", kw])
+    shape = ["collection", []]
     n = rng.choice([0, 1, 2, 3, 5, 8, 13])
     nchap = 0
     for _ in range(n):
@@ -105,10 +225,12 @@ def gen_case(rng, cid, null_defaults):
                 if not null_defaults and akw.get("content_type", 1) is None:
                     akw["content_type"] = "text/html"
             ops.append(["append", rng.choice(TITLES), rng.choice([None, None, " Shown ", "Ü", ""]), akw])
+            shape_append_article(shape)
         elif r < 0.72:
             t = fz(rng, rng.choice(TITLES + ([None] if null_defaults else [])))
             ckw = {} if rng.random() < 0.1 else {"title": t}
             ops.append(["additem", "chapter", ckw])
+            shape[1].append(["chapter", []])
             nchap += 1
         elif r < 0.76:
             # an article object put into the list directly: every attribute may carry a falsy value
@@ -117,9 +239,11 @@ def gen_case(rng, cid, null_defaults):
                 if rng.random() < 0.3:
                     akw[f] = fz(rng, rng.choice(["1", "x"]), 0.6)
             ops.append(["additem", "article", akw])
+            shape[1].append(["article", []])
         elif r < 0.8:
             ops.append(["additem", "custom", {"title": fz(rng, rng.choice(TITLES)), "content": fz(rng, "some ''wikitext''", 0.3),
                                               **({"content_type": fz(rng, "text/html", 0.5)} if rng.random() < 0.3 else {})}])
+            shape[1].append(["custom", []])
         elif r < 0.95:
             f = rng.choice(OPT_FIELDS + EXTRA_FIELDS + ["summary", "version", "licenses", "wikis"])
             if f == "summary":
@@ -140,7 +264,11 @@ def gen_case(rng, cid, null_defaults):
         if rng.random() < 0.04:
             ops.append(["indep", rng.choice(BASES), gen_muts(rng), False])
     base = rng.choice(BASES)
+    if rng.random() < 0.5:
+        ops += gen_session(rng, base, shape)
     ops += [["state"], ["dumps"], ["walk"], ["roundtrip"], ["ids", base]]
+    if rng.random() < 0.15:
+        ops += gen_session(rng, base, shape) + [["state"]]
     if rng.random() < 0.6:
         # another consumer loads the very text this request carries and works on its own copy
         ops += [["indep", base, gen_muts(rng), False], ["state"], ["roundtrip"]]
@@ -165,6 +293,9 @@ def gen_text_case(rng, cid, null_defaults):
     for _ in range(rng.randrange(5)):
         if rng.random() < 0.3:
             ch = {"type": rng.choice(["chapter", "Chapter"]), "title": fz(rng, rng.choice(TITLES)), "items": [art() for _ in range(rng.randrange(3))]}
+            if rng.random() < 0.3:      # chapters nest
+                ch["items"].insert(rng.randrange(len(ch["items"]) + 1),
+                                   {"type": "chapter", "title": rng.choice(TITLES), "items": [art() for _ in range(rng.randrange(1, 3))]})
             if null_defaults and rng.random() < 0.3:
                 ch["title"] = None
             items.append(ch)
@@ -186,14 +317,19 @@ def gen_text_case(rng, cid, null_defaults):
     text = json.dumps(mb, ensure_ascii=rng.random() < 0.5, indent=rng.choice([None, 2]))
     base = rng.choice(BASES)
     ops = [["loadtext", text], ["dumps"], ["walk"], ["roundtrip"], ["ids", base]]
+    shape = shape_of_json(mb)
     if rng.random() < 0.3:
         # the consumer that loaded the text goes on working with its object
         for _ in range(rng.choice([1, 2])):
             if rng.random() < 0.5:
                 ops.append(["append", rng.choice(TITLES), None, {}])
+                shape_append_article(shape)
             else:
                 ops.append(["set", rng.choice(OPT_FIELDS + ["summary"]), fz(rng, rng.choice(TITLES))])
         ops.append(["state"])
+    if rng.random() < 0.35:
+        # .. asks for its identifiers and edits it in place, at any depth
+        ops += gen_session(rng, base, shape) + [["state"], ["roundtrip"]]
     if rng.random() < 0.6:
         # the same request text is decoded again by another consumer (True: the text as received, not a re-serialisation)
         ops += [["indep", base, gen_muts(rng), rng.random() < 0.7], ["state"], ["roundtrip"]]
@@ -393,6 +529,53 @@ def monitor(run, case, op, r, defaults):
             run.hit("shared-defaults:" + r["ok"][0][:60], "operations on one metabook changed another object / a class default: %r" % r["ok"][:3], rp)
 
 
+def edit_kind(op):
+    """Fingerprint part: what kind of change and how deep below the Collection object."""
+    if op[0] == "edit":
+        return "%s@depth%d" % (op[2][0], len(op[1]))
+    return op[0] + "@api"
+
+
+def monitor_probes(run, case, outs):
+    """C13 over the LIFE of one metabook object: `probe` ops ask for checksum / collection id of the live object between
+    API calls and in-place edits at any depth.  The identifiers depend only on the content: at every probe the checksum is
+    that of a fresh copy of the same content, and between any two probes checksum and id change exactly when the dumped
+    JSON changes."""
+    rp = {"case": case}
+    probes = []
+    for oi, (op, r) in enumerate(zip(case["ops"], outs)):
+        if op[0] == "probe" and "ok" in r:
+            probes.append((oi, r["ok"]))
+    for n, (oi, p) in enumerate(probes):
+        between = [o for o in case["ops"][(probes[n - 1][0] + 1 if n else 0):oi] if o[0] in ("edit", "set", "append", "additem", "reload", "indep")]
+        last = edit_kind(between[-1]) if between else "none"
+        if p["checksum"] != p["checksum_again"]:
+            run.hit("probe:checksum-unstable", "two calc_checksum calls in a row on the same object differ", rp)
+        if p["fresh_checksum"] is not None and p["checksum"] != p["fresh_checksum"]:
+            run.hit("probe:checksum-not-of-content:" + last, "calc_checksum(m) = %s.. but a fresh copy of the same content, "
+                    "loads(m.dumps()), has checksum %s.. (last change before the probe: %s)" % (p["checksum"][:12], p["fresh_checksum"][:12], last), rp)
+        elif hashlib.sha256(p["text"].encode("utf8")).hexdigest() != p["checksum"]:
+            run.hit("probe:checksum-not-of-dump:" + last, "calc_checksum(m) is not sha256 of m.dumps() (last change before the probe: %s)" % last, rp)
+        for m in range(n):
+            oj, q = probes[m]
+            same_text = q["text"] == p["text"]
+            adj = "" if m == n - 1 else ":non-adjacent"
+            lastk = last if m == n - 1 else "non-adjacent"
+            if not same_text and q["checksum"] == p["checksum"]:
+                run.hit("probe:checksum-unchanged:" + lastk, "the metabook changed between two calc_checksum calls (ops #%d..#%d, last: %s; "
+                        "dumps() differ) but the checksum stayed %s.." % (oj, oi, last, p["checksum"][:12]), rp)
+            if same_text and q["checksum"] != p["checksum"]:
+                run.hit("probe:checksum-changed-same-content" + adj, "dumps() at ops #%d and #%d are identical but the checksums differ" % (oj, oi), rp)
+            qi, pi = q["id"].get("ok"), p["id"].get("ok")
+            if qi is None or pi is None:
+                continue
+            if not same_text and qi == pi:
+                run.hit("probe:id-unchanged:" + lastk, "the metabook changed between ops #%d and #%d (last: %s) but the collection id of the "
+                        "request carrying its dump stayed %s" % (oj, oi, last, pi), rp)
+            if same_text and qi != pi:
+                run.hit("probe:id-changed-same-content" + adj, "dumps() at ops #%d and #%d are identical but the collection ids differ" % (oj, oi), rp)
+
+
 # ---------------------------------------------------------------------------------------------- settling hits
 
 class Sink:
@@ -417,6 +600,7 @@ def run_cases_fresh(src, cases, defaults):
     sink.observed = rs[-1]
     for op, r in zip(cs[-1]["ops"], rs[-1]["out"]):
         monitor(sink, cs[-1], op, r, defaults)
+    monitor_probes(sink, cs[-1], rs[-1]["out"])
     return sink
 
 
@@ -523,7 +707,7 @@ def settle_hits(run, sink, src, defaults, cases, nshard):
                 if fams[f] and len(order) < 5:
                     order.append(fams[f].pop(0))
         for fp in order:
-            budget = [70]
+            budget = [150]
             got, pre, case = None, [], None
             for h in by_fp[fp][:3]:
                 case = {"ops": h["replay"]["case"]["ops"]}
@@ -592,6 +776,25 @@ def model_lines(op):
         return ["ADDITEM %s %s" % (cc.enc_str(op[1]), cc.enc_kvs(op[2]))]
     if k == "set":
         return ["SET %s %s" % (cc.enc_str(op[1]), cc.enc_plain(op[2]))]
+    if k == "edit":
+        path, act = op[1], op[2]
+        head = "EDIT %d %s " % (len(path), " ".join(str(i) for i in path))
+        a = act[0]
+        if a == "set":
+            return [head + "SET %s %s" % (cc.enc_str(act[1]), cc.enc_plain(act[2]))]
+        if a == "append":
+            return [head + "APPEND %s %s" % (cc.enc_str(act[1]), cc.enc_kvs(act[2]))]
+        if a == "insert":
+            return [head + "INSERT %d %s %s" % (act[1], cc.enc_str(act[2]), cc.enc_kvs(act[3]))]
+        if a == "pop":
+            return [head + "POP %d" % act[1]]
+        if a == "reverse":
+            return [head + "REVERSE"]
+        if a == "listappend":
+            return [head + "LAPPEND %s %s" % (cc.enc_str(act[1]), cc.enc_plain(act[2]))]
+        if a == "inner":
+            return [head + "INNER %s %d %s %s" % (cc.enc_str(act[1]), act[2], cc.enc_str(act[3]), cc.enc_plain(act[4]))]
+        raise RuntimeError("edit %r" % (act,))
     if k == "state":
         return ["STATE"]
     if k == "dumps":
@@ -696,7 +899,7 @@ def _check(run, src, model, defaults):
         raise RuntimeError("c13_impl: %d/%d cases" % (len(results), len(cases)))
     dis_ops, dis_ids = [], []
     sink = Sink()
-    dist = {"ops": {}, "articles": {}, "id_variants": {}, "outcomes": {}, "indep": {}}
+    dist = {"ops": {}, "articles": {}, "id_variants": {}, "outcomes": {}, "indep": {}, "edits": {}, "probes": {}}
     nops = nids = 0
     for case in cases:
         res = results[case["id"]]
@@ -732,7 +935,7 @@ def _check(run, src, model, defaults):
             want = None
             if k in ("new", "set"):
                 want = (m.strip() == "ok")
-            elif k in ("append", "additem"):
+            elif k in ("append", "additem", "edit"):
                 want = (m.strip() == "ok")      # failures show in the next state comparison
             elif k == "reload":
                 want = (m.strip() == "ok") == ("ok" in r)
@@ -766,6 +969,16 @@ def _check(run, src, model, defaults):
                     where = "?"
                 dis_ops.append("ops %s: op #%d %r differs at %s: impl %s model %s" % (json.dumps(case["ops"][:oi + 1])[:700], oi, op[0], where,
                                                                                   json.dumps(r)[:200], m[:100]))
+        monitor_probes(sink, case, res["out"])
+        prev_text = None
+        for op, r in zip(case["ops"], res["out"]):
+            if op[0] == "edit":
+                key = edit_kind(op) + (":skipped" if r.get("ok") == "skipped" else ":raised" if "exc" in r else "")
+                dist["edits"][key] = dist["edits"].get(key, 0) + 1
+            elif op[0] == "probe" and "ok" in r:
+                key = "first" if prev_text is None else "content-changed" if prev_text != r["ok"]["text"] else "content-unchanged"
+                dist["probes"][key] = dist["probes"].get(key, 0) + 1
+                prev_text = r["ok"]["text"]
         for oi, op in enumerate(case["ops"]):
             r = res["out"][oi]
             monitor(sink, case, op, r, defaults)
@@ -836,6 +1049,11 @@ def replay(obj):
     for op, r in zip(case["ops"], res.get("out", []) if isinstance(res, dict) else []):
         if op[0] in ("roundtrip", "ids", "shared", "indep"):
             print(json.dumps({"op": op[0], "result": r}, indent=1)[:3000])
+        elif op[0] == "probe" and "ok" in r:
+            print(json.dumps({"op": "probe", "checksum": r["ok"]["checksum"], "checksum of loads(dumps())": r["ok"]["fresh_checksum"],
+                              "sha256(dumps())": hashlib.sha256(r["ok"]["text"].encode("utf8")).hexdigest(), "id": r["ok"]["id"]}))
+        elif op[0] == "edit":
+            print(json.dumps({"op": op, "result": r}))
     for h in sink.hits:
         print("REPRODUCED:", h["fingerprint"], "-", h["what"])
     if not sink.hits:
